@@ -211,7 +211,8 @@ class _MetricCache(defaultdict):
     if settings.CACHE_SIZE_HARD_MAX == float('inf'):
       return False
     else:
-      return self.size >= settings.CACHE_SIZE_HARD_MAX
+      # full when one more datapoint would exceed the (possibly fractional) hard limit
+      return self.size + 1 > settings.CACHE_SIZE_HARD_MAX
 
   @property
   def is_nearly_full(self):
